@@ -117,6 +117,17 @@ def p3_types(ctx, f, rid="C14.P3"):
                 for a in t["args"]:
                     walk(a, trail, root)
                 return
+            if not p.startswith(("std::", "core::", "alloc::")) and p in f.adts and f.adts[p].get("external"):
+                # a dependency's type whose definition the driver read from crate metadata: walked like a local one
+                if p in seen_adts:
+                    return
+                seen_adts.add(p)
+                for v in f.adts[p]["variants"]:
+                    for fl in v["fields"]:
+                        walk(fl["tyt"], trail + ["%s.%s" % (p.split("::")[-1], fl["name"])], root)
+                for a in t["args"]:
+                    walk(a, trail, root)
+                return
             if p.startswith(DENY_EXTERNAL_PREFIX):
                 ctx.fail(rid, "%s/deny/%s/%s" % (root, trail[-1], p), "-", root, where + ": " + p,
                          "interior-mutable / shared-ownership / randomly-seeded type in a state-bearing type")
